@@ -1,3 +1,4 @@
+import re
 import sys
 from typing import Type
 
@@ -42,6 +43,11 @@ WORD_OPERATORS = frozenset(
     ("add", "sub", "mul", "div", "mod", "eq", "ne", "lt", "le", "gt", "ge", "in")
     + ("and", "or", "not")
 )
+# Matched the way the lexer matches its keywords: ignoring case as regular
+# expressions do, which also relates a few non-ASCII letters to ASCII ones
+# (a field named `ſub` or `ın` is read as `sub` / `in`).
+_WORD_OPERATOR = re.compile("|".join(sorted(WORD_OPERATORS)), re.IGNORECASE)
+_NOT = re.compile("not", re.IGNORECASE)
 
 
 class AstToODataVisitor(visitor.NodeVisitor):
@@ -248,13 +254,13 @@ class AstToODataVisitor(visitor.NodeVisitor):
         if (
             isinstance(node, ast.Identifier)
             and not node.namespace
-            and node.name.lower() in WORD_OPERATORS
+            and _WORD_OPERATOR.fullmatch(node.name)
         ):
             # `(not) eq x`, `- (eq) add 1`: written bare, an operand that is a field
             # named like an operator would be read as that operator.
             return f"({res})"
 
-        if isinstance(node, ast.Attribute) and node.attr.lower() == "not":
+        if isinstance(node, ast.Attribute) and _NOT.fullmatch(node.attr):
             # `(a/not) eq x`: a path that ends in `not` and is followed by whitespace
             # would be read as the path `a/` and the `not` operator.
             return f"({res})"
